@@ -144,43 +144,42 @@ type Instant struct {
 	Off int64 `json:"off"` // milliseconds within the day
 }
 
+// drawInstant draws the calendar fields one by one (rapid's integer generators favour small values, so
+// a single draw over 36525 days or 86.4 million milliseconds would rarely leave January 2000 / the first
+// seconds of a day; per-field draws reach every value of every field and still shrink towards 2000-01-01 00:00:00.000).
+func drawInstant(t *rapid.T) Instant {
+	y := rapid.IntRange(2000, 2099).Draw(t, "year")
+	if rapid.IntRange(0, 7).Draw(t, "yearkind") == 0 {
+		y = rapid.SampledFrom([]int{2000, 2001, 2004, 2038, 2096, 2099}).Draw(t, "yearedge")
+	}
+	mo := rapid.IntRange(1, 12).Draw(t, "month")
+	last := time.Date(y, time.Month(mo)+1, 0, 0, 0, 0, 0, time.UTC).Day()
+	var d int
+	switch rapid.IntRange(0, 3).Draw(t, "daykind") {
+	case 0:
+		d = rapid.SampledFrom([]int{1, 2, 9, 10, last - 1, last}).Draw(t, "dayedge")
+	default:
+		d = rapid.IntRange(1, last).Draw(t, "day")
+	}
+	day := int((time.Date(y, time.Month(mo), d, 0, 0, 0, 0, time.UTC).UnixMilli() - baseMs) / msDay)
+	field := func(label string, max int, edges []int) int64 {
+		if rapid.IntRange(0, 2).Draw(t, label+"kind") == 0 {
+			return int64(rapid.SampledFrom(edges).Draw(t, label+"edge"))
+		}
+		return int64(rapid.IntRange(0, max).Draw(t, label))
+	}
+	off := field("hour", 23, []int{0, 1, 9, 10, 11, 12, 13, 19, 20, 23})*msHour +
+		field("minute", 59, []int{0, 1, 4, 5, 9, 10, 54, 55, 59})*msMinute +
+		field("second", 59, []int{0, 1, 9, 10, 59})*msSecond +
+		field("milli", 999, []int{0, 1, 5, 9, 10, 11, 50, 99, 100, 101, 500, 998, 999})
+	return Instant{Day: day, Off: off}
+}
+
 var specInstants = pbt.Register(pbt.Spec[Instant]{
 	Prop: "C19", Name: "calendar-random-instants",
-	Rule: "rapid-drawn (day, millisecond-of-day) pairs over the century: uniform offsets plus offsets next to second/minute/five-minute/hour boundaries and days next to month/year/leap-day boundaries; same comparison as the day sweep; non-trivial = offset not in the fixed list of the sweep; distinct by instant",
-	Quick: 200000, Thorough: 7305000,
-	Draw: func(t *rapid.T) Instant {
-		var c Instant
-		if rapid.IntRange(0, 3).Draw(t, "daykind") == 0 {
-			// a day next to a month boundary
-			y := rapid.IntRange(2000, 2099).Draw(t, "y")
-			mo := rapid.IntRange(1, 12).Draw(t, "m")
-			d := int(time.Date(y, time.Month(mo), 1, 0, 0, 0, 0, time.UTC).UnixMilli()-baseMs) / int(msDay)
-			d += rapid.IntRange(-2, 1).Draw(t, "dd")
-			if d < 0 {
-				d = 0
-			}
-			c.Day = d
-		} else {
-			c.Day = rapid.IntRange(0, nDays-1).Draw(t, "day")
-		}
-		switch rapid.IntRange(0, 2).Draw(t, "offkind") {
-		case 0:
-			c.Off = rapid.Int64Range(0, msDay-1).Draw(t, "off")
-		case 1: // next to a field boundary
-			unit := rapid.SampledFrom([]int64{msSecond, msMinute, msFiveMin, msHour, 10 * msSecond, 10 * msMinute, 10 * msHour}).Draw(t, "unit")
-			k := rapid.Int64Range(0, msDay/unit).Draw(t, "k")
-			c.Off = k*unit + rapid.Int64Range(-2, 2).Draw(t, "delta")
-		default: // small millisecond parts (padding of the millisecond field)
-			c.Off = rapid.Int64Range(0, 86399).Draw(t, "sec")*1000 + rapid.SampledFrom([]int64{0, 1, 5, 9, 10, 11, 50, 99, 100, 101, 500, 999}).Draw(t, "ms")
-		}
-		if c.Off < 0 {
-			c.Off = 0
-		}
-		if c.Off >= msDay {
-			c.Off = msDay - 1
-		}
-		return c
-	},
+	Rule: "rapid-drawn instants of the century, drawn field by field (year, month, day, hour, minute, second, millisecond; each either over its whole range or from its edge values: first/last day of a month, 59 -> 00 roll-overs, five-minute borders, one-/two-/three-digit milliseconds); same comparison as the day sweep, which includes the unit functions one millisecond before and at the surrounding step borders; non-trivial = offset not in the fixed list of the sweep; distinct by instant",
+	Quick: 600000, Thorough: 7305000,
+	Draw: drawInstant,
 	Run: func(c Instant) *pbt.Result {
 		t := baseMs + int64(c.Day)*msDay + c.Off
 		if err := checkInstant(t); err != nil {
@@ -326,22 +325,12 @@ func runFmt(c FmtCase) *pbt.Result {
 
 var specFmt = pbt.Register(pbt.Spec[FmtCase]{
 	Prop: "C19", Name: "dateformat-roundtrip",
-	Rule: "patterns over the field letters y m d H M S s (date letters all present or all absent, any subset/order of the time letters, occasionally a repeated letter) with optional literal separators (ASCII punctuation, T, Z, multi-byte runes) and an instant of the century with boundary-biased fields; Parse(Format(t)) must agree with t on every field present (and equal t when all seven are present), with a fresh and with a re-used DateFormat; non-trivial = >= 3 fields; distinct by (pattern, instant)",
-	Quick: 30000, Thorough: 1000000,
+	Rule: "patterns over the field letters y m d H M S s (date letters all present or all absent, any subset/order of the time letters, occasionally a repeated letter) with optional literal separators (ASCII punctuation, T, Z, multi-byte runes) and an instant of the century drawn field by field with edge values; Parse(Format(t)) must agree with t on every field present (and equal t when all seven are present), with a fresh and with a re-used DateFormat; non-trivial = >= 3 fields; distinct by (pattern, instant)",
+	Quick: 100000, Thorough: 1000000,
 	Draw: func(t *rapid.T) FmtCase {
 		c := FmtCase{Pattern: drawPattern(t)}
-		day := rapid.IntRange(0, nDays-1).Draw(t, "day")
-		var off int64
-		if rapid.Bool().Draw(t, "edge") {
-			h := rapid.SampledFrom([]int64{0, 1, 9, 10, 12, 23}).Draw(t, "h")
-			mi := rapid.SampledFrom([]int64{0, 1, 9, 10, 59}).Draw(t, "mi")
-			s := rapid.SampledFrom([]int64{0, 1, 9, 10, 59}).Draw(t, "s")
-			ms := rapid.SampledFrom([]int64{0, 1, 9, 10, 99, 100, 999}).Draw(t, "ms")
-			off = h*msHour + mi*msMinute + s*msSecond + ms
-		} else {
-			off = rapid.Int64Range(0, msDay-1).Draw(t, "off")
-		}
-		c.T = baseMs + int64(day)*msDay + off
+		in := drawInstant(t)
+		c.T = baseMs + int64(in.Day)*msDay + in.Off
 		return c
 	},
 	Run: runFmt,
